@@ -236,6 +236,12 @@ def decl_text(d, k):
         "instDef2": f"type {n} Gen2[string, int]",
         "embed": f"type {n} interface {{\n\tEmpty\n\tExtra{k}() error\n}}",
         "empty": f"type {n} interface{{}}",
+        "embedsLocal": f"type {n} interface {{\n\tReader\n\tWriter\n}}",
+        "embedsStd": f"type {n} interface {{\n\tfmt.Stringer\n}}",
+        "embedsMixed": f"type {n} interface {{\n\tReader\n\tio.Closer\n}}",
+        "embedsGeneric": f"type {n}[T any] interface {{\n\tGen[T]\n}}",
+        "embedsInst": f"type {n} interface {{\n\tGen[int]\n\tGen2[string, int]\n}}",
+        "embedsAlias": f"type {n} interface {{\n\tAliasOver\n}}",
         "instAlias": f"type {n} = Gen[string]",
         "namedOver": f"type {n} Second",
         "aliasOver": f"type {n} = Second",
@@ -276,7 +282,9 @@ def package_files(decls):
     files = {}
     for f, texts in by.items():
         head = heads.get(f, "")
-        files[names[f]] = head + "package p\n\n" + "\n\n".join(texts) + "\n"
+        body = "\n\n".join(texts)
+        imports = "".join(f'import "{i}"\n' for i in ("fmt", "io") if f"{i}." in body)
+        files[names[f]] = head + "package p\n\n" + (imports + "\n" if imports else "") + body + "\n"
     return files
 
 
